@@ -66,6 +66,17 @@ class Poly(dict):
             r = r + Poly({k2: v * (value ** n)}) if v * (value ** n) else r
         return r
 
+    def subst_poly(self, sym, value):
+        """Replace the symbol by a polynomial."""
+        r = Poly()
+        for k, v in self.items():
+            n = k.count(sym)
+            term = Poly({tuple(x for x in k if x != sym): v})
+            for _ in range(n):
+                term = term * value
+            r = r + term
+        return r
+
     def show(self):
         if not self:
             return "0"
@@ -406,8 +417,15 @@ def _result_n(f, cn, case):
         # accumulator: v = slice{v.start, v.n + K} inside a counted loop, starting from $0
         acc = txt[1:]
         init = [n for n in walk(f.body) if n.get("k") == "Var" and n["n"] == acc]
+        base = None
         if init and cn.c(init[0]["init"]) == "$0":
-            total = Poly.sym("$0.n")
+            base = Poly.sym("$0.n")
+        elif init:
+            ip = _pair_of(init[0].get("init"))
+            if ip is not None:
+                base = poly_of(cn, ip["c"][1])          # slice v{start, n0}
+        if base is not None:
+            total = base
             for loop in [n for n in walk(f.body) if n.get("k") == "ForStmt"]:
                 for n in walk(loop["body"]):
                     if n.get("k") == "CXXOperatorCallExpr" and n.get("op") == "=" and cn.c(n["c"][1]) == txt:
@@ -415,7 +433,8 @@ def _result_n(f, cn, case):
                         rhs = strip(n["c"][2], casts=True)
                         inc = None
                         if rhs is not None and rhs.get("k") == "CXXMemberCallExpr" and \
-                                (rhs.get("callee") or {}).get("q", "").startswith(R + "dfa_builder::"):
+                                ((rhs.get("callee") or {}).get("q", "").startswith(R + "dfa_builder::") or
+                                 (rhs.get("callee") or {}).get("q", "").startswith(R + "dfa_size_analyzer::")):
                             # v = op(v, slice{...}): the slice that operation returns (cat returns s1.n + s2.n)
                             g = f.facts.by_id.get(rhs["callee"]["id"])
                             sub = _result_n(g, Canon(g), {"n0": False}) if g is not None else None
@@ -490,6 +509,13 @@ def cap_d(chk, fx):
             pushes = _pushes(fx, fb, cb, fb.body, case)
             counted = _size_delta(fa, ca, case)
             rb, ra = _result_n(fb, cb, case), _result_n(fa, ca, case)
+            if ra is not None:
+                # `size += whole.n - s.n` after a loop that grows `whole`: whole.n is what the loop made of it
+                for rn in walk(fa.body):
+                    if rn.get("k") == "ReturnStmt" and rn.get("value") is not None:
+                        rt_ = ca.c(rn["value"])
+                        if rt_.startswith("?"):
+                            counted = counted.subst_poly(rt_ + ".n", ra)
             if n0:
                 pushes, counted = pushes.subst("$1", 0), counted.subst("$1", 0)
                 rb = rb.subst("$1", 0) if rb is not None else None
@@ -716,14 +742,15 @@ def cap_s(chk, fx, only=None):
     chk.rule("CAP-S", "push sites of the fixed-capacity parse stacks", 4 if only is None else len(only))
     # capacity expression of the cvector stacks (patterns of the two selector specialisations)
     caps = set()
-    for rq in ("ctpg::detail::parse_table_cursor_stack_type", "ctpg::detail::parser_value_stack_type"):
-        for u, r in fx.records(rq):
-            if r["tmpl"] != "pattern":
-                continue
-            for m in r["members"]:
-                if m["k"] == "alias" and m["n"] == "type" and "cvector" in u.T(m["t"]):
-                    t = u.T(m["t"])
-                    caps.add(_capacity_text(fx, t))
+    # every selector in namespace detail (whatever it is called: the two traits may be merged into one) whose `type` is
+    # a cvector: its capacity expression
+    for u, r in fx.records():
+        if r["tmpl"] != "pattern" or not r["q"].startswith("ctpg::detail::"):
+            continue
+        for m in r["members"]:
+            if m["k"] == "alias" and m["n"] == "type" and "cvector<" in u.T(m["t"]):
+                t = u.T(m["t"])
+                caps.add(_capacity_text(fx, t))
     if not caps:
         chk.incomplete("fixed-capacity stack selectors not found")
     if len(caps) != 1:
